@@ -141,6 +141,12 @@ func complement[T constraints.Integer](intv Interval[T], sub []Interval[T]) ([]I
 	}
 
 	intvs = append(intvs, intv)
+
+	// No interval of sub has been visited, so there is none to skip.
+	if cnt == 0 {
+		return intvs, 0
+	}
+
 	return intvs, cnt - 1
 }
 
